@@ -31,14 +31,16 @@ META = {
                   'every state reachable by replaceFunc/Guard.Apply/Unpatch/unpatchValue/UnpatchAll and worst-case collections, a '
                   'non-pristine entry is exactly the jump to the replacement held by the global patches map, which is therefore '
                   'live (never a wild jump); the mock keeps dispatching to the same closure until an operation on that function; '
-                  'Return/When install baseMocker.callback via reflect.MakeFunc. NOT proved, only observed on the corpus: that the '
+                  'Return/When install baseMocker.callback via reflect.MakeFunc (afresh after an Apply on the same mocker), exact-value rules are judged on the arguments of the call at hand, first match wins. NOT proved, only observed on the corpus: that the '
                   'Go ABI delivers every argument/result class unchanged through the jump and through reflect.makeFuncStub, and '
                   'that stack copying and the real collector preserve this.',
     'level_note': 'Trusted: Lean kernel (propext, Classical.choice, Quot.sound), tools/gen translator, mini ISA X86Mini (both '
                   'cross-checked by C15), the hand model of patch.go/guard.go/monkey.go/mocker.go (cross-checked by replaying '
                   'histories on the real code each run), the allocator-freshness assumption of the heap model. Outside the model '
                   'and covered only by measurement: Go register ABI, reflect.MakeFunc stub, runtime.morestack/stack copy, the real '
-                  'GC, instruction fetch of rewritten code, concurrency of callers (one history at a time).',
+                  'GC, instruction fetch of rewritten code, concurrency of callers (one history at a time). Recorded defects (KNOWN_FINDINGS C01-K1 generic '
+                  'dictionary shift — repair drafted as fixes/F27; C01-K2 reset of a superseded builder unpatches the superseding mock — refuted full '
+                  'statement in Findings/C01F.lean; C01-K3 method-value callback receives the receiver): the check prints KNOWN-FINDING for exactly those inputs.',
 }
 
 GEN = ['JmpAmd64']
